@@ -1,6 +1,6 @@
 (* C11 - DTCWT synthesis equals the reference inverse on arbitrary pyramids: colifilt and c2q. *)
 From PW Require Import Base.Ops Base.Sum Base.Sig Base.Tensor Model.Dwt Model.Dtcwt Spec.Line Spec.DtcwtRef
-  Proofs.DwtNF Proofs.DtcwtNF Proofs.QuadProofs.
+  Proofs.DwtNF Proofs.DtcwtNF Proofs.DtcwtNFrow Proofs.QuadProofs.
 
 (* colifilt, both parities of m/2 and both flags, for ANY input tensor *)
 Theorem C11_colifilt :
@@ -10,6 +10,15 @@ Theorem C11_colifilt :
     (col_spec x (2 * tH x) (fun n c i j => ref_colifilt Op L (tH x) HA HB (fun q => tf x n c q j) (negb hp) i)).
 Proof. exact @ifilt_ref_col. Qed.
 Print Assumptions C11_colifilt.
+
+(* rowifilt: the same closed form along the last axis *)
+Theorem C11_rowifilt :
+  forall (R:Type) (Op:Ops R) (Rth:RingOk Op) (x:@ten R) (L:Z) (HA HB:Z->R) (hp:bool),
+  2 <= L -> L mod 2 = 0 -> 2 <= tW x -> tW x mod 2 = 0 -> 1 <= tH x -> 0 < tC x ->
+  is_ok (ifilt Op 3 x L (rev_filt L HA) (rev_filt L HB) hp)
+    (row_spec x (2 * tW x) (fun n c i j => ref_colifilt Op L (tW x) HA HB (fun q => tf x n c i q) (negb hp) j)).
+Proof. exact @ifilt_ref_row. Qed.
+Print Assumptions C11_rowifilt.
 
 (* colfilter is shared with the forward transform *)
 Theorem C11_colfilter :
